@@ -489,4 +489,109 @@ theorem parseV4_agree (d : List UInt8) (inc : Bool) (fp : Parsed) (h : parseV4 d
               · simp [acceptable, addrsOK, portsOK, toClass, pkt4, hfr, hp, Pkt.isIcmp, hic]
 
 
+
+
+theorem parseV6_agree (d : List UInt8) (inc : Bool) (fp : Parsed) (h : parseV6 d inc = .ok fp) :
+    ∃ w k, findUpper d = .ok w ∧ parse6 d = some (pkt6 d w k) ∧ acceptable (pkt6 d w k) inc (toClass fp) = true := by
+  simp only [parseV6] at h
+  by_cases hlen : d.length < 40
+  · simp [hlen] at h
+  · simp only [if_neg hlen, slice_eq d 8 24 (by omega) (by omega), slice_eq d 24 40 (by omega) (by omega), ok_bind] at h
+    split at h
+    · simp at h
+    · simp at h
+    · rename_i w hw
+      obtain ⟨k, hk⟩ := findUpper_spec d w hw
+      refine ⟨w, k, hw, hk, ?_⟩
+      have hshape : (w.isFrag = false → isExtHeader w.nh = false) := by
+        simp only [findUpper, if_neg hlen, idx_eq d 6 (by omega), ok_bind] at hw
+        exact (loop_ok_shape d _ _ _ _ _ hw).1
+      by_cases hfr : w.isFrag = true
+      · simp only [hfr, if_true, Res.ok.injEq] at h
+        subst h
+        cases inc <;> simp [acceptable, addrsOK, portsOK, toClass, pkt6, hfr]
+      · simp only [Bool.not_eq_true] at hfr
+        have hne := hshape hfr
+        simp only [hfr, Bool.false_eq_true, if_false, Gen.firewall_ProtoICMPv6, Gen.firewall_ProtoTCP, Gen.firewall_ProtoUDP] at h
+        by_cases h58 : w.nh = 58
+        · simp only [h58, if_true] at h
+          by_cases hl4 : d.length < w.off + 4
+          · simp [hl4] at h
+          · simp only [if_neg hl4, idx_eq d w.off (by omega), ok_bind] at h
+            by_cases hecho : byte d w.off = 128 ∨ byte d w.off = 129
+            · simp only [hecho, if_true] at h
+              by_cases hl6 : d.length < w.off + 6
+              · simp [hl6] at h
+              · simp only [if_neg hl6, u16At_eq d (w.off + 4) (by omega), ok_bind, Res.ok.injEq] at h
+                subst h
+                have hl6' : 6 ≤ d.length - w.off := by omega
+                have hid : icmpHasId 6 (byte d w.off) = true := by
+                  rcases hecho with h1 | h1 <;> simp [icmpHasId, h1]
+                cases inc <;> simp [acceptable, addrsOK, portsOK, toClass, pkt6, hfr, h58, Pkt.isIcmp, Pkt.icmpId,
+                  be16_drop, byte_drop, hl6', hid]
+            · simp only [hecho, if_false, Res.ok.injEq] at h
+              subst h
+              have hid : icmpHasId 6 (byte d w.off) = false := by
+                simp only [not_or] at hecho
+                simp [icmpHasId, hecho.1, hecho.2]
+              cases inc <;> simp [acceptable, addrsOK, portsOK, toClass, pkt6, hfr, h58, Pkt.isIcmp,
+                  byte_drop, hid]
+        · simp only [h58, if_false] at h
+          by_cases hp : w.nh = 6 ∨ w.nh = 17
+          · simp only [hp, if_true] at h
+            by_cases hl4 : d.length < w.off + 4
+            · simp [hl4] at h
+            · simp only [if_neg hl4, u16At_eq d w.off (by omega), u16At_eq d (w.off + 2) (by omega), ok_bind] at h
+              have hl4' : 4 ≤ d.length - w.off := by omega
+              cases inc
+              · simp only [Bool.false_eq_true, if_false, Res.ok.injEq] at h
+                subst h
+                simp [acceptable, addrsOK, portsOK, toClass, pkt6, hfr, hp, Pkt.ports, be16_drop, hl4']
+              · simp only [if_true, Res.ok.injEq] at h
+                subst h
+                simp [acceptable, addrsOK, portsOK, toClass, pkt6, hfr, hp, Pkt.ports, be16_drop, hl4']
+          · simp only [hp, if_false, Res.ok.injEq] at h
+            subst h
+            cases inc <;> simp [acceptable, addrsOK, portsOK, toClass, pkt6, hfr, hp, Pkt.isIcmp, h58]
+
+
+theorem version_eq (b : Nat) (h : b < 256) : (b >>> 4) &&& 15 = b / 16 := by
+  rw [and_0f, Nat.shiftRight_eq_div_pow]; omega
+
+theorem newPacket_agree (d : List UInt8) (inc : Bool) (fp : Parsed) (h : newPacket d inc = .ok fp) :
+    ∃ sp, parse d = some sp ∧ acceptable sp inc (toClass fp) = true := by
+  simp only [newPacket] at h
+  by_cases hlen : d.length < 1
+  · simp [hlen] at h
+  · simp only [if_neg hlen, idx_eq d 0 (by omega), ok_bind, version_eq _ (byte_lt d 0)] at h
+    match d, hlen with
+    | b :: tl, _ =>
+      have hb : byte (b :: tl) 0 = b.toNat := by simp [byte]
+      simp only [hb] at h
+      simp only [parse]
+      by_cases h4 : b.toNat / 16 = 4
+      · simp only [h4, if_true] at h ⊢
+        exact ⟨_, parseV4_agree _ _ _ h⟩
+      · by_cases h6 : b.toNat / 16 = 6
+        · simp only [h6, if_true, show ¬ ((6:Nat) = 4) by decide, if_false] at h ⊢
+          obtain ⟨w, k, _, h1, h2⟩ := parseV6_agree _ _ _ h
+          exact ⟨_, h1, h2⟩
+        · simp [h4, h6] at h
+
+/-- An accepted IPv6 packet that is not a non-first fragment never reports a walked extension header
+type as its protocol; a non-first fragment reports the next-header byte of its fragment header. -/
+theorem parseV6_proto (d : List UInt8) (inc : Bool) (fp : Parsed) (h : parseV6 d inc = .ok fp) :
+    (fp.fragment = false → isExtHeader fp.proto = false) ∧
+    (fp.fragment = true → fp.proto = byte d fp.ipHdrLen ∧ fp.ipHdrLen + 8 ≤ d.length ∧ fp.fragAny = true) := by
+  obtain ⟨w, k, hw, _, hacc⟩ := parseV6_agree d inc fp h
+  have hlen : ¬ d.length < 40 := by
+    intro hl; simp [findUpper, hl] at hw
+  have hshape := by
+    simp only [findUpper, if_neg hlen, idx_eq d 6 (by omega), ok_bind] at hw
+    exact loop_ok_shape d _ _ _ _ _ hw
+  simp only [acceptable, toClass, pkt6, Bool.and_eq_true, beq_iff_eq] at hacc
+  obtain ⟨⟨⟨⟨⟨_, k1⟩, k2⟩, k4⟩, k3⟩, _⟩ := hacc
+  rw [k1, k2, k3, k4]
+  exact hshape
+
 end Nebula.Lemmas.PktParse
